@@ -1,8 +1,8 @@
 (* Decoding of correspondence cases, in Gallina, so that the extracted driver and a
    [vm_compute] evaluation inside coqc run exactly the same function.
    A case is a list of numbers; the first is the case kind. *)
-From Coq Require Import NArith List.
-From PDB Require Import Model.IndexPage.
+From Coq Require Import NArith List Bool.
+From PDB Require Import Model.IndexPage Model.Pipeline.
 Import ListNotations.
 Open Scope N_scope.
 
@@ -18,8 +18,69 @@ Definition run_c19 (l : list N) : list N :=
   | _ => err_marker
   end.
 
+(* ---- kind 1: pipeline history ---- *)
+Fixpoint take_cfg (n : nat) (l : list N) : list ccfg * list N :=
+  match n, l with
+  | S n', f :: rest =>
+      let '(cs, r) := take_cfg n' rest in
+      ({| c_btree := N.testbit f 0; c_rc := N.testbit f 1; c_preimage := N.testbit f 2 |} :: cs, r)
+  | _, _ => ([], l)
+  end.
+
+Fixpoint take_ops (n : nat) (l : list N) : tx * list N :=
+  match n, l with
+  | S n', c :: o :: k :: v :: rest =>
+      let '(ops, r) := take_ops n' rest in
+      let op := if o =? 0 then OSet k v else if o =? 1 then ODeref k else ORef k in
+      ((c, op) :: ops, r)
+  | _, _ => ([], l)
+  end.
+
+Definition opt_tok (o : option N) : N := match o with Some v => v + 1 | None => 0 end.
+
+Definition observe (ncols nkeys : nat) (s : pstate) : list N :=
+  flat_map (fun c => flat_map (fun k => [opt_tok (get s (N.of_nat c) (N.of_nat k));
+                                         opt_tok (get_size s (N.of_nat c) (N.of_nat k))])
+                              (seq 0 nkeys)) (seq 0 ncols).
+
+Fixpoint run_steps (fuel : nat) (cfg : list ccfg) (nkeys : nat) (s : pstate) (l : list N) : list N :=
+  match fuel with
+  | O => []
+  | S f =>
+      match l with
+      | [] => []
+      | code :: rest =>
+          let '(st, rest') :=
+            if code =? 1 then
+              match rest with
+              | n :: r => let '(ops, r') := take_ops (N.to_nat n) r in (SCommit ops, r')
+              | [] => (SProcess, [])
+              end
+            else if code =? 2 then (SProcess, rest)
+            else if code =? 3 then (SFlush, rest)
+            else if code =? 4 then (SEnactAll, rest)
+            else if code =? 5 then (SClean, rest)
+            else if code =? 6 then (SReopen, rest)
+            else (SEnactOne, rest) in
+          let '(s', status) := do_step cfg s st in
+          status :: observe (length cfg) nkeys s' ++ run_steps f cfg nkeys s' rest'
+      end
+  end.
+
+Definition run_hist (l : list N) : list N :=
+  match l with
+  | ncols :: rest =>
+      let '(cfg, rest1) := take_cfg (N.to_nat ncols) rest in
+      match rest1 with
+      | nkeys :: nsteps :: steps => run_steps (N.to_nat nsteps) cfg (N.to_nat nkeys) init steps
+      | _ => err_marker
+      end
+  | _ => err_marker
+  end.
+
 Definition dispatch (l : list N) : list N :=
   match l with
   | 19 :: rest => run_c19 rest
+  | 1 :: rest => run_hist rest
   | _ => err_marker
   end.
